@@ -20,12 +20,20 @@ package checks
 // execution must show the final matching set when the last relevant change fired.
 
 import (
+	"context"
 	"fmt"
 	"sort"
 	"strings"
 	"testing"
 	"testing/synctest"
 	"time"
+
+	"github.com/deckhouse/deckhouse/pkg/log"
+
+	"github.com/flant/shell-operator/pkg/hook/config"
+	kubeeventsmanager "github.com/flant/shell-operator/pkg/kube_events_manager"
+	kemtypes "github.com/flant/shell-operator/pkg/kube_events_manager/types"
+	metricstorage "github.com/flant/shell-operator/pkg/metric_storage"
 
 	"verif/harness/vlib"
 )
@@ -662,4 +670,132 @@ func c01group(res *vlib.Result, rec *krecord, kh khook, b *kbind, lastGroup *kex
 	if strings.Join(got, ",") != strings.Join(want, ",") {
 		res.Violate("group/last-execution-does-not-reflect-last-change/"+recipe, "binding %s/%s (group %s): the last change (%s, generation %d) is of a listed type, but the last Group execution #%d shows %v while the cluster holds %v\n%s", kh.Rel, b.Name, b.Group, lastType, lastGen, lastGroup.Idx, got, want, rec.describe())
 	}
+}
+
+// ---------------------------------------------------------------- unlock replay vs. live events
+//
+// Informer level, real goroutines (no bubble: the unlock holds a mutex across a
+// blocking channel send, which a virtual-time bubble cannot schedule around):
+// one goroutine plays client-go's handler goroutine and delivers the events of
+// one informer sequentially; some are buffered while events are locked; another
+// goroutine performs the unlock (replay of the buffer) while the first keeps
+// delivering; a slow consumer drains the manager-like capacity-1 channel.
+// Oracle: every event is delivered exactly once and per object in order.
+
+func TestC01Replay(t *testing.T) {
+	e := vlib.GetEnv()
+	n := e.Pick(240, 6000)
+	vlib.RunCases(t, "C01", "replay-order", n, func(c *vlib.Case) vlib.Result {
+		var res vlib.Result
+		rng := c.Rng
+		kubeeventsmanager.DefaultFactoryStore.Reset()
+		vc := vlib.NewVCluster()
+		ctx, cancel := context.WithCancel(context.Background())
+		defer cancel()
+		hc := &config.HookConfig{}
+		if err := hc.LoadAndValidate([]byte(cfgJSON(m{"configVersion": "v1", "kubernetes": []any{m{"name": "b", "apiVersion": "v1", "kind": "ConfigMap"}}}))); err != nil {
+			res.Inconclusive = err.Error()
+			return res
+		}
+		ch := make(chan kemtypes.KubeEvent, 1) // the manager's channel has capacity 1
+		ms := metricstorage.NewMetricStorage(ctx, "p_", true, log.NewNop())
+		mon := kubeeventsmanager.NewMonitor(ctx, vc.Client, ms, hc.OnKubernetesEvents[0].Monitor, func(ev kemtypes.KubeEvent) { ch <- ev }, log.NewNop())
+		if err := mon.CreateInformers(); err != nil || len(mon.ResourceInformers) != 1 {
+			res.Inconclusive = fmt.Sprint("create informers: ", err)
+			return res
+		}
+		ri := mon.ResourceInformers[0]
+		nObj := 1 + rng.IntN(2)
+		nBuffered := rng.IntN(6)
+		nLive := 1 + rng.IntN(5)
+		total := nBuffered + nLive
+		gen := 0
+		exists := map[string]bool{}
+		type sent struct {
+			Obj string
+			Gen int
+		}
+		var plan []sent
+		for i := 0; i < total; i++ {
+			gen++
+			plan = append(plan, sent{fmt.Sprintf("o%d", rng.IntN(nObj)), gen})
+		}
+		deliver := func(s sent) {
+			u := vlib.BuildCM("default", s.Obj, vlib.ObjState{Gen: s.Gen})
+			if exists[s.Obj] {
+				ri.OnUpdate(nil, u)
+			} else {
+				ri.OnAdd(u, false)
+				exists[s.Obj] = true
+			}
+		}
+		consumerDelay := time.Duration(rng.IntN(3)) * time.Millisecond
+		liveDelay := time.Duration(rng.IntN(2000)) * time.Microsecond
+		unlockDelay := time.Duration(rng.IntN(1500)) * time.Microsecond
+		var got []sent
+		done := make(chan struct{})
+		go func() { // consumer
+			defer close(done)
+			for len(got) < total {
+				select {
+				case ev := <-ch:
+					g, _, _ := unstructuredNestedString(ev.Objects[0].Object.Object, "data", "gen")
+					var gi int
+					fmt.Sscanf(g, "%d", &gi)
+					got = append(got, sent{ev.Objects[0].Object.GetName(), gi})
+					if consumerDelay > 0 {
+						time.Sleep(consumerDelay)
+					}
+				case <-time.After(10 * time.Second):
+					return
+				}
+			}
+		}()
+		// the informer's handler goroutine
+		handlerDone := make(chan struct{})
+		unlockStart := make(chan struct{})
+		go func() {
+			defer close(handlerDone)
+			for _, s := range plan[:nBuffered] {
+				deliver(s)
+			}
+			close(unlockStart)
+			time.Sleep(liveDelay)
+			for _, s := range plan[nBuffered:] {
+				deliver(s)
+				if rng.IntN(2) == 0 {
+					time.Sleep(time.Duration(rng.IntN(300)) * time.Microsecond)
+				}
+			}
+		}()
+		<-unlockStart
+		time.Sleep(unlockDelay)
+		mon.EnableKubeEventCb()
+		<-handlerDone
+		<-done
+		desc := fmt.Sprintf("%d objects, %d events buffered before the unlock, %d delivered while/after it (consumer delay %v, live delay %v, unlock delay %v)\nsent      %v\nreceived  %v", nObj, nBuffered, nLive, consumerDelay, liveDelay, unlockDelay, plan, got)
+		if len(got) != total {
+			res.Violate("replay/lost-or-stuck", "only %d of %d events reached the consumer within 10 s\n%s", len(got), total, desc)
+		}
+		last := map[string]int{}
+		seen := map[int]bool{}
+		for _, g := range got {
+			if seen[g.Gen] {
+				res.Violate("replay/duplicate", "generation %d delivered twice\n%s", g.Gen, desc)
+			}
+			seen[g.Gen] = true
+			if g.Gen < last[g.Obj] {
+				res.Violate("replay/order", "object %s: generation %d delivered after %d\n%s", g.Obj, g.Gen, last[g.Obj], desc)
+			}
+			last[g.Obj] = g.Gen
+		}
+		res.Count("replay_events_checked", int64(len(got)))
+		if nBuffered > 0 {
+			res.Key = fmt.Sprintf("replay-o%d-b%d-l%d-%d", nObj, nBuffered, nLive, c.Index%8)
+		}
+		if c.Index < 2 {
+			res.Sample = m{"case": desc}
+		}
+		return res
+	})
 }
